@@ -1104,6 +1104,17 @@ def shared_search(ctx, shim, r):
                                "font_features": [(tag_str(t), l) for t, l in rec["features"]], "default_on": rec["on"],
                                "lookups": lookup_tokens(rec), "shared_lookups": sh,
                                "expected": ea, "expected_alt": eb, "observed": got})
+    # permanent witness of known_C14_shared_alternate_index: salt and ss01 on ONE alternate lookup {glyph 1 -> 10..14}
+    wrec = {"nglyphs": 20, "cmap": {0xE000 + i: 1 + i for i in range(NBASE)}, "scripts": {T("DFLT"): {"req": None, "feats": [0, 1]}},
+            "features": [(T("salt"), [0]), (T("ss01"), [0])], "lookups": [("t", {1: [10, 11, 12, 13, 14]})], "on": [], "user": ["salt", "ss01"]}
+    wreg = f"map fonthex W {build_font(wrec).hex()}"
+    wfacts = vlib.run_groups(shim, [[wreg, f"map facts W - - {T('salt')},{T('ss01')}"]], nproc=1)[0][1]
+    wreq = shape_request("W", wfacts, " ".join(lookup_tokens(wrec)), [("salt", 1, 0, 1), ("ss01", 1, 2, 3)], [(1, 0), (1, 1), (1, 2)])
+    wgot = vlib.run_groups(shim, [[wreg, wreq]], nproc=1)[0][1]
+    ctx.cov["known_witness_shared_alternate"] = {
+        "theorem": "known_C14_shared_alternate_index", "lines": [wreg, wreq], "features": "salt[0:1]=1 ss01[2:3]=1",
+        "crate": wgot, "intended": "ok 3 10:0 1:1 10:2", "theorem_says": "ok 3 10:0 1:1 11:2 (index 1·2^(5-4) = 2 at cluster 2)",
+        "reproduces_on_crate": wgot == "ok 3 10:0 1:1 11:2"}
     if alt_example is not None:
         rp = dict(alt_example)
         rp.update({"stage": "search", "stream": "feature-shape", "generator": "shared-lookups", "class": "shared-alternate-lookup",
